@@ -21,7 +21,7 @@ fi
 ( cd $WT && git checkout -q -- testdata 2>/dev/null )
 CAUGHT=""
 for c in $CHECKS; do
-  /verif/bin/bebopcheck $c --tier quick --repo $WT --verif $SV > $OUT/$c.log 2>&1; e=$?
+  ${BEBOPCHECK:-/verif/bin/bebopcheck} $c --tier quick --repo $WT --verif $SV > $OUT/$c.log 2>&1; e=$?
   if [ $e -eq 1 ]; then CAUGHT="$CAUGHT $c"; elif [ $e -eq 2 ]; then CAUGHT="$CAUGHT $c(undecided)"; fi
 done
 echo "$LABEL build=$B suite=$S demo_clean=$DC demo_patched=$DP caught:[$CAUGHT ]"
